@@ -199,7 +199,7 @@ def check_pairs(ml, y, n_c, same_length, seeds):
           return bad('wrap_pairs.tuples-are-X[constraints]', fw, y, 'row %d is not (X[%d], X[%d])' % (r, i, j), **inp)
         want = 1 if r < len(a) else -1
         if lab[r] != want:
-          return bad('wrap_pairs.labels', fw, y, 'label of row %d is %r, expected %d' % (r, lab[r], want), **inp)
+          return bad('wrap_pairs.labels', fw, y, 'label of row %d is %r, expected %d' % (r, lab[r].item(), want), **inp)
   return None if produced else 'skipped'
 
 
@@ -294,10 +294,10 @@ def check_triplets(ml, y, X, D2, exact, k_g, k_i, xname):
     for _, b, c in mine:
       if D2[a, b] > thr_g * (1 + rtol) + atol:
         return bad('triplets.genuine-among-k-nearest', fn, y, 'triplet %s: d2(a,b)=%r exceeds the %d-th smallest same-class squared distance %r: %s'
-                   % ([a, b, c], D2[a, b], kg, thr_g, obs), **inp)
+                   % ([a, b, c], float(D2[a, b]), kg, float(thr_g), obs), **inp)
       if D2[a, c] > thr_i * (1 + rtol) + atol:
         return bad('triplets.impostor-among-k-nearest', fn, y, 'triplet %s: d2(a,c)=%r exceeds the %d-th smallest other-class squared distance %r: %s'
-                   % ([a, b, c], D2[a, c], ki, thr_i, obs), **inp)
+                   % ([a, b, c], float(D2[a, c]), ki, float(thr_i), obs), **inp)
     nb, nc = len({r[1] for r in mine}), len({r[2] for r in mine})
     if len(set(mine)) != len(mine) or nb != kg or nc != ki or len(mine) != kg * ki:
       return bad('triplets.every-combination-exactly-once', fn, y,
